@@ -36,6 +36,7 @@ def _load():
         except ModuleNotFoundError as e:
             if e.name != 'sa.rules.' + pid.lower():
                 raise
+    importlib.import_module('sa.rules.cross')
 
 
 def rules_for(pid):
